@@ -2,6 +2,7 @@
 import multiprocessing
 import random
 
+from .. import sesstrace as ST
 from .. import common, tlc, absmap as A, engdrv as D, engcheck as E, sessdrv as S, ttlvcheck as TV, enggen as G
 
 common.use_repo()
@@ -89,7 +90,7 @@ def _traffic(args):
             try:
                 m = kmessages.RequestMessage()
                 m.read(kutils.BytearrayStream(data))
-                decoded = True
+                decoded = not ST.decoder_rejects(data)     # fully decodable: consistent framing, everything consumed
             except Exception:
                 decoded = False
             c = S.FakeConn(data, cert=cert if r.random() < 0.95 else None)
